@@ -238,7 +238,12 @@ impl FsOcflStore {
 
         let object_root = self.storage_root.join(object_root);
 
-        if object_root.exists() {
+        // Something that is not an object, for example a directory that other objects are stored
+        // beneath, may be at the path. It is not the object that is being looked for.
+        let is_object = object_root.is_dir()
+            && (is_object_root(&object_root)? || resolve_inventory_path(&object_root).0.exists());
+
+        if is_object {
             let inventory = parse_inventory(&object_root, &self.storage_root)?;
 
             if inventory.id != object_id {
